@@ -28,7 +28,10 @@ Inductive fkind := FBin | FCbin | FTmp | FCh | FMeta | FChTmp.
 (* Orig: the recording given to the converter (x.ap.bin ...), Lf21: the x.lf.bin ... files
    an NP2.1 run writes next to it, Shank k e: the e-band files inside shank folder k. *)
 Inductive owner := Orig | Lf21 | Shank (k : nat) (e : etype).
-Inductive path := PDir (k : nat) | PFile (o : owner) (f : fkind).
+(* PMark: not a file — Complete iff the original's .meta is the one NP2Reconstructor.write_metadata
+   writes (original_meta=False kept, <version>_shank and snsSaveChanSubset_orig removed) rather than
+   SpikeGLX's own *)
+Inductive path := PDir (k : nat) | PFile (o : owner) (f : fkind) | PMark.
 (* Complete = byte-equal to the one content this path is supposed to hold
    (for FTmp: the content of the finished .cbin); Partial = exists, other bytes. *)
 Inductive fstate := Absent | Partial | Complete.
@@ -48,6 +51,7 @@ Definition path_eqb (a b : path) : bool :=
   match a, b with
   | PDir k, PDir k' => Nat.eqb k k'
   | PFile o f, PFile o' f' => owner_eqb o o' && fkind_eqb f f'
+  | PMark, PMark => true
   | _, _ => false end.
 Definition fstate_eqb (a b : fstate) : bool :=
   match a, b with
@@ -557,3 +561,61 @@ Fixpoint obj_after (kd : kind) (n w : nat) (ob : obj) (fs : fsys) (cs : list cal
 Definition new_obj_sub (o : opts) (compressed : bool) (sub : option (list nat)) : obj :=
   mkObj o false (if compressed then FCbin else FBin) false false sub.
 Definition new_obj (o : opts) (compressed : bool) : obj := new_obj_sub o compressed None.
+
+(* ======================================================================== *)
+(* Metadata markers, NP2Reconstructor, histories with user operations            *)
+(* ======================================================================== *)
+(* what check_metadata can see in the .meta of the file it is given *)
+Inductive marker :=
+  | MPristine      (* SpikeGLX's own metadata: neither key *)
+  | MRecon         (* written by NP2Reconstructor: original_meta=False, no <version>_shank *)
+  | MShank.        (* written by the converter for a shank: original_meta=False and <version>_shank=k *)
+Definition marker_of (fs : fsys) (t : target) : marker :=
+  match t with
+  | TShank _ => MShank
+  | _ => if complete fs PMark then MRecon else MPristine
+  end.
+(* check_metadata: already_processed iff the <version>_shank key is present *)
+Definition marks_processed (m : marker) : bool := match m with MShank => true | _ => false end.
+
+(* NP2Reconstructor(root, "probe00", compress).process(): needs every shank folder with its ap
+   metadata and exactly one form of complete ap data; here only specified when the original is gone *)
+Definition shank_src_ok (fs : fsys) (k : nat) : bool :=
+  present fs (PDir k) && complete fs (PFile (Shank k Ap) FMeta)
+  && ((complete fs (PFile (Shank k Ap) FBin) && negb (present fs (PFile (Shank k Ap) FCbin)))
+      || (negb (present fs (PFile (Shank k Ap) FBin)) && complete fs (PFile (Shank k Ap) FCbin)
+          && complete fs (PFile (Shank k Ap) FCh))).
+Definition recon_ok (n : nat) (fs : fsys) : bool :=
+  (1 <=? n)%nat && forallb (shank_src_ok fs) (seq 0 n)
+  && negb (present fs (PFile Orig FBin)) && negb (present fs (PFile Orig FCbin))
+  && (complete fs (PFile Orig FMeta) || negb (present fs (PFile Orig FMeta))).
+(* _reconstruct writes probe00/x.ap.bin; write_metadata keeps an existing .meta whose fileSizeBytes
+   matches, else writes the reconstructed one; compress_file replaces the .bin by .cbin + .ch *)
+Definition recon (comp : bool) (fs : fsys) : fsys :=
+  let fs1 := if present fs (PFile Orig FMeta) then fs
+             else upd (upd fs (PFile Orig FMeta) Complete) PMark Complete in
+  if comp then upd (upd fs1 (PFile Orig FCbin) Complete) (PFile Orig FCh) Complete
+  else upd fs1 (PFile Orig FBin) Complete.
+
+Inductive hop :=
+  | HRun (r : runspec)
+  | HDropMeta                 (* the user removes the leftover x.ap.meta *)
+  | HRecon (comp : bool).
+
+Definition hop_apply (kd : kind) (n w : nat) (fs : fsys) (op : hop) : runout :=
+  match op with
+  | HRun r => run_once kd n w fs r
+  | HDropMeta => mkOut (upd (upd fs (PFile Orig FMeta) Absent) PMark Absent) (Status 7) false 2 false []
+  | HRecon comp =>
+      match kd with
+      | NP24 => if recon_ok n fs then mkOut (recon comp fs) (Status 1) false 2 false []
+                else noop fs (Raised EUnspecified) false
+      | _ => noop fs (Raised EUnspecified) false
+      end
+  end.
+
+Fixpoint ops_run (kd : kind) (n w : nat) (fs : fsys) (h : list hop) : list runout :=
+  match h with
+  | [] => []
+  | op :: h' => let o := hop_apply kd n w fs op in o :: ops_run kd n w (out_fs o) h'
+  end.
